@@ -44,6 +44,8 @@ def _classify(mi: ModuleInfo, value: ast.AST, repo) -> str:
         return "immutable" if all(_classify(mi, e, repo) == "immutable" for e in value.elts) else "mutable"
     if isinstance(value, ast.Call):
         cn = call_name(value) or ""
+        if cn in ("int.from_bytes", "int.to_bytes", "bytes.fromhex", "str.join", "ord", "chr", "hex", "min", "max", "abs", "divmod", "round"):
+            return "immutable"  # an int / bytes / str computed once from literals
         if cn in IMMUTABLE_CALLS:
             return "logger" if cn == "logging.getLogger" else "immutable"
         r = repo.resolve_name(mi, cn.split(".")[0]) if cn else None
